@@ -51,6 +51,7 @@ func init() {
 			{ID: "C13.R29", Text: "the final save and the stream close reach the store and the server themselves: no write-behind, limiting or queueing layer in front of a collaborator that is not a proven pass-through (same rules as C20.R19 and C20.R20)", Run: func(c *Ctx, id string) { decoratorsTransparent()(c, id); noNewLayers(c, id) }},
 			{ID: "C13.R30", Text: "shutdown is the decision of the application: the public Close is used by nobody inside the module (same rule as C11.R25)", Run: closeIsEntryPointOnly},
 			{ID: "C13.R31", Text: "the close is not held up by a delivery in progress: Observer.Close and Observer.CloseEnd only set their switch — no lock, channel operation or wait", Run: observerSwitchesDoNotWait},
+			{ID: "C13.R32", Text: "nothing panics on the way down: channel closes are once by construction or confirmed (same rule as C20.R22)", Run: channelClosesKnown},
 			{ID: "C13.R9", Text: "background waits are cancellable: the health checker blocks only in selects with a ctx.Done() case (same rule as C19.R2)", Run: c19r2},
 			{ID: "C13.R10", Text: "a cancel signal closes with closeWithCancel=true: the flag is raised in the branch of the wait that received the signal, before the close path runs, and is what Stream.Close receives", Run: c13r10},
 			{ID: "C13.R8", Text: "closeAllStreams closes every assigned vBucket: the serial branch iterates vbIDRange.Start..End inclusive, the parallel branch ranges over every tracked position", Run: closeAllRange},
